@@ -144,7 +144,26 @@ func execC13(t *testing.T, raw json.RawMessage, res *Result) {
 		}
 		opArgs = []string{"merge", "main", "alt", "-n", nw}
 	case "prune":
-		if !must("commit", "tmp", f1, "doomed", "-p", pkArg) || !must("commit", "tmp", f2, "doomed too", "-p", pkArg) || !must("branch", "delete", "tmp") {
+		// a chain (and a fork) of doomed commits: prune must delete children before parents
+		chain := 2 + int(p.SchedSeed%5)
+		for i := 0; i < chain; i++ {
+			f := f1
+			if i%2 == 1 {
+				f = f2
+			}
+			if !must("commit", "tmp", f, fmt.Sprintf("doomed %d", i), "-p", pkArg) {
+				return
+			}
+			if i == 1 && p.SchedSeed%3 == 0 {
+				if !must("branch", "create", "tmp2", "tmp") || !must("commit", "tmp2", f0, "doomed fork", "-p", pkArg) {
+					return
+				}
+			}
+		}
+		if !must("branch", "delete", "tmp") {
+			return
+		}
+		if p.SchedSeed%3 == 0 && !must("branch", "delete", "tmp2") {
 			return
 		}
 		opArgs = []string{"prune"}
